@@ -15,11 +15,11 @@ import (
 // reference runtime decoding the same bytes, not by this encoder.
 
 type varStats struct {
-	permuted, repacked, splitRun, dupScalar, splitMsg, mapSwapped, mapKeyOmitted, mapValOmitted, mapDupKey, mapExtra, unknown, oneofDup int
+	permuted, repacked, splitRun, dupScalar, splitMsg, mapSwapped, mapKeyOmitted, mapValOmitted, mapDupKey, mapExtra, unknown, oneofDup, explicitDefault int
 }
 
 func (s *varStats) any() bool {
-	return s.permuted+s.repacked+s.splitRun+s.dupScalar+s.splitMsg+s.mapSwapped+s.mapKeyOmitted+s.mapValOmitted+s.mapDupKey+s.mapExtra+s.unknown+s.oneofDup > 0
+	return s.permuted+s.repacked+s.splitRun+s.dupScalar+s.splitMsg+s.mapSwapped+s.mapKeyOmitted+s.mapValOmitted+s.mapDupKey+s.mapExtra+s.unknown+s.oneofDup+s.explicitDefault > 0
 }
 
 type varOpts struct {
@@ -29,9 +29,12 @@ type varOpts struct {
 	splitMsg bool
 	mapShape bool
 	unknowns bool
+	// explicit occurrences of the DEFAULT value for unset implicit-presence scalars (08 00, 0a 00): legal on the
+	// wire although canonical writers omit them; the decoded message is the same
+	explicitDefaults bool
 }
 
-var allVariants = varOpts{true, true, true, true, true, true}
+var allVariants = varOpts{true, true, true, true, true, true, true}
 
 func wireTypeOf(k protoreflect.Kind) int {
 	switch k {
@@ -266,6 +269,20 @@ func encodeVariant(t *rapid.T, m protoreflect.Message, o varOpts, st *varStats, 
 		}
 		return true
 	})
+	if o.explicitDefaults {
+		fs := md.Fields()
+		for i := 0; i < fs.Len(); i++ {
+			fd := fs.Get(i)
+			if fd.HasPresence() || fd.IsList() || fd.IsMap() || fd.Message() != nil || m.Has(fd) {
+				continue
+			}
+			if rapid.IntRange(0, 3).Draw(t, "expdef") == 0 {
+				// at the FRONT: whatever the decoder does for this occurrence must not leak into the fields after it
+				pieces = append([][]byte{fieldOcc(int(fd.Number()), fd.Kind(), fd.Default())}, pieces...)
+				st.explicitDefault++
+			}
+		}
+	}
 	if u := m.GetUnknown(); len(u) > 0 {
 		pieces = append(pieces, append([]byte{}, u...))
 	}
